@@ -71,7 +71,8 @@ func (r *Runner) fillExpandConfig(ctx context.Context) {
 			r2.stdout = sw
 			r2.stmts(ctx, cs.Stmts)
 			sw.close()
-			r2.exit.exiting = false // subshells don't exit the parent shell
+			r2.exit.exiting = false   // subshells don't exit the parent shell
+			r2.exit.returning = false // nor return from the parent's function
 			r.lastExpandExit = r2.exit
 			if r2.exit.fatalExit {
 				return r2.exit.err // surface fatal errors immediately
@@ -157,7 +158,8 @@ func (r *Runner) fillExpandConfig(ctx context.Context) {
 				}
 				r2.stmts(ctx, ps.Stmts)
 				verifYield("procsubst-end")
-				r2.exit.exiting = false // subshells don't exit the parent shell
+				r2.exit.exiting = false   // subshells don't exit the parent shell
+				r2.exit.returning = false // nor return from the parent's function
 			}()
 			return path, nil
 		},
@@ -364,7 +366,8 @@ func (r *Runner) stmt(ctx context.Context, st *syntax.Stmt) {
 			verifYield("background-start")
 			r2.Run(ctx, &st2)
 			verifYield("background-end")
-			r2.exit.exiting = false // subshells don't exit the parent shell
+			r2.exit.exiting = false   // subshells don't exit the parent shell
+			r2.exit.returning = false // nor return from the parent's function
 			*bg.exit = r2.exit
 			close(bg.done)
 		}()
@@ -463,7 +466,8 @@ func (r *Runner) cmd(ctx context.Context, cm syntax.Command) {
 	case *syntax.Subshell:
 		r2 := r.subshell(false)
 		r2.stmts(ctx, cm.Stmts)
-		r2.exit.exiting = false // subshells don't exit the parent shell
+		r2.exit.exiting = false   // subshells don't exit the parent shell
+		r2.exit.returning = false // nor return from the parent's function
 		r.exit = r2.exit
 	case *syntax.CallExpr:
 		// Build new slices, to not modify the caller's AST
@@ -587,7 +591,8 @@ func (r *Runner) cmd(ctx context.Context, cm syntax.Command) {
 				verifYield("pipe-producer-start")
 				r2.stmt(ctx, cm.X)
 				verifYield("pipe-producer-end")
-				r2.exit.exiting = false // subshells don't exit the parent shell
+				r2.exit.exiting = false   // subshells don't exit the parent shell
+				r2.exit.returning = false // nor return from the parent's function
 				pw.Close()
 			})
 			verifYield("pipe-consumer-start")
